@@ -157,7 +157,7 @@ def main():
         for d in (1, 2, 3):
             for fam in ("valid", "marginal", "folded", "inverted", "collinear"):
                 for lattice in (True, False):
-                    for _ in range(6 if not thorough else 40):
+                    for _ in range(20 if not thorough else 120):
                         add("verdict", nodes=family(rnd, d, fam, lattice), d=d, family=fam, lattice=lattice)
         for d in (2, 3):
             nn = G.tri_nodes_count(d)
@@ -171,9 +171,11 @@ def main():
     midx = []
     for kind, kw in cases:
         if have_model and kind == "verdict":
-            midx.append(drv.ask("is_valid", kw["d"], kw["nodes"]))
+            midx.append(drv.ask("is_valid", int(C.generated("py_triangle_helpers_MAX_POLY_SUBDIVISIONS", 5)),
+                                C.generated("py_triangle_helpers_QUARTIC_BERNSTEIN_FACTOR", Fr(36)), 2, kw["d"],
+                                [[Fr(float(x)) for x in r] for r in kw["nodes"]]))
         elif have_model and kind == "jacobian-polynomial":
-            midx.append(drv.ask("jacobian_polynomial", kw["d"], kw["nodes"]))
+            midx.append(drv.ask("jacobian_polynomial", kw["d"], [[Fr(float(x)) for x in r] for r in kw["nodes"]]))
         else:
             midx.append(None)
     replies = drv.run() if drv.lines else []
@@ -227,7 +229,7 @@ def main():
                 scale = max(abs(x) for r in nodes for x in r) ** 2 * d * d * 4 or 1
                 if mi is not None:
                     st, model = replies[mi]
-                    if st != "ok" or [Fr(x) for x in model] != spec:
+                    if st != "ok" or [Fr(x) for x in model] != spec:      # the driver op returns the true coefficients (factor applied)
                         res.mismatch("model-vs-spec:jacobian_polynomial", rc, str(model)[:200], str(spec)[:200])
                 for c in range(len(spec)):
                     g = Fr(float(got[0, c]))
